@@ -103,6 +103,8 @@ def check_mutations(case):
         muts = []
         if t == ">":
             muts.append(("missing-closing-bracket", toks[:i] + toks[i + 1:]))
+            # the closing bracket replaced by something that is not one (the text then has an unclosed item whatever follows)
+            muts.append(("closing-bracket-replaced-by-open", toks[:i] + ["<"] + toks[i + 1:]))
         elif t in ITEMS:
             muts.append(("unknown-item-name", toks[:i] + ["NOSUCHITEM"] + toks[i + 1:]))
         for kind, m in muts:
